@@ -561,3 +561,173 @@ def install(interp):
     interp.method_models[(struct.Struct, 'unpack')] = s_unpack
     interp.models[struct.pack] = m_pack
     interp.models[struct.unpack] = m_unpack
+
+
+# ------------------------------------------------------------------------------ decimal segments, structural index/slice/find
+
+_DEC = {}        # id of the string term -> (term kept alive, int term n): the term is the decimal rendering of n
+
+
+def dec_segment(n, st=None):
+    """segment holding str(n) for an int term n"""
+    if isinstance(n, int):
+        return ('lit', str(n).encode())
+    t = int_to_dec(n)
+    _DEC[t.get_id()] = (t, n)
+    if st is not None:
+        # name the length with a constant: position arithmetic stays linear and stable under simplification
+        ln = z3.Int(fresh_name('declen'))
+        st.pc.append(ln == z3.Length(t))
+        st.pc.append(ln >= 1)
+        return ('sym', t, ln)
+    return ('sym', t, z3.Length(t))
+
+
+def dec_value(seg):
+    if seg[0] == 'sym':
+        hit = _DEC.get(seg[1].get_id())
+        if hit is not None and hit[0].eq(seg[1]):
+            return hit[1]
+    return None
+
+
+def cum_lens(segs, st=None):
+    out = [0]
+    for s in segs:
+        l = seg_len(s)
+        if st is not None and not isinstance(l, int) and s[0] == 'sym':
+            from .builtins_model2 import known_length
+            k = known_length(st, s[1])
+            if k is not None:
+                l = k
+        prev = out[-1]
+        out.append(prev + l if isinstance(prev, int) and isinstance(l, int) else z3.simplify(iterm(prev) + iterm(l)))
+    return out
+
+
+def locate(st, segs, idx, cums=None):
+    """position idx (int | z3 Int) -> (k, off): start of segment k plus a concrete offset inside a literal segment,
+    k == len(segs) meaning the end.  None if it cannot be established by the arithmetic entailment check."""
+    cums = cums or cum_lens(segs, st)
+    if isinstance(idx, int) and idx < 0:
+        return None
+    if isinstance(idx, int) and all(isinstance(c, int) for c in cums):
+        for k, s in enumerate(segs):
+            if cums[k] <= idx < cums[k + 1]:
+                if idx == cums[k]:
+                    return k, 0
+                return (k, idx - cums[k]) if s[0] == 'lit' else None
+        return (len(segs), 0) if idx == cums[-1] else None
+    it = iterm(idx)
+    # syntactic pass: idx - (start of segment k) simplifies to a numeral
+    for k in range(len(segs) + 1):
+        d = z3.simplify(it - iterm(cums[k]))
+        if z3.is_int_value(d):
+            dv = d.as_long()
+            if dv == 0:
+                return k, 0
+            if k < len(segs) and segs[k][0] == 'lit' and 0 < dv < len(segs[k][1]):
+                return k, dv
+            if k < len(segs) and segs[k][0] == 'lit' and dv == len(segs[k][1]):
+                return k + 1, 0
+    for k in range(len(segs) + 1):
+        if st.entails(it == iterm(cums[k])):
+            return k, 0
+    for k, s in enumerate(segs):
+        if s[0] == 'lit' and len(s[1]) <= 12:
+            for off in range(1, len(s[1])):
+                if st.entails(it == iterm(cums[k]) + off):
+                    return k, off
+    return None
+
+
+def segs_getitem(interp, st, v, idx):
+    """v[idx] structurally -> V or None"""
+    segs = v.segs
+    pos = locate(st, segs, idx)
+    if pos is None:
+        return None
+    k, off = pos
+    # skip empty symbolic segments is not possible structurally; the byte is the first of segment k
+    if k >= len(segs):
+        return exc(IndexError, "index out of range")
+    s = segs[k]
+    if s[0] == 'lit':
+        return VInt(s[1][off])
+    ln = seg_len(s)
+    if not (isinstance(ln, int) and ln > 0) and not st.entails(iterm(ln) > 0):
+        if dec_value(s) is None:
+            return None
+    # name the byte with a fresh constant (the simplifier would otherwise rewrite the defining term differently in
+    # every later use, and the arithmetic pruning would lose the range fact)
+    code = z3.Int(fresh_name('byte'))
+    st.pc.append(code == z3.StrToCode(z3.SubString(seg_term(s), 0, 1)))
+    if dec_value(s) is not None:
+        st.assume(z3.Or(code == 45, z3.And(code >= 48, code <= 57)))
+    else:
+        st.assume(z3.And(code >= 0, code <= 255))
+    return VInt(code)
+
+
+def segs_slice(interp, st, v, lo, hi):
+    """v[lo:hi] structurally (lo/hi: int | z3 Int | None) -> V or None"""
+    segs = v.segs
+    cums = cum_lens(segs, st)
+    a = (0, 0) if lo is None else locate(st, segs, lo, cums)
+    if a is None:
+        return None
+    if hi is None:
+        b = (len(segs), 0)
+    else:
+        b = locate(st, segs, hi, cums)
+        if b is None:
+            # hi beyond the end clamps
+            if st.entails(iterm(hi) >= iterm(cums[-1])):
+                b = (len(segs), 0)
+            else:
+                return None
+    (ka, oa), (kb, ob) = a, b
+    if (ka, oa) > (kb, ob):
+        return VBytes(b'')
+    out = []
+    for k in range(ka, min(kb + 1, len(segs))):
+        s = segs[k]
+        start = oa if k == ka else 0
+        end = ob if k == kb else None
+        if k == kb and ob == 0:
+            break
+        if s[0] == 'lit':
+            out.append(('lit', s[1][start:end]))
+        else:
+            if start or end:
+                return None
+            out.append(s)
+    return from_segs(out)
+
+
+def segs_find(interp, st, v, needle, start=0):
+    """v.find(needle, start) for a concrete needle, structurally -> VInt or None"""
+    if not isinstance(needle, bytes) or len(needle) != 1:
+        return None
+    segs = v.segs
+    cums = cum_lens(segs, st)
+    pos = locate(st, segs, start, cums)
+    if pos is None:
+        return None
+    k, off = pos
+    while k < len(segs):
+        s = segs[k]
+        if s[0] == 'lit':
+            j = s[1].find(needle, off)
+            if j >= 0:
+                c = cums[k]
+                return VInt(c + j) if isinstance(c, int) else mk_int(iterm(c) + j)
+        elif dec_value(s) is not None:
+            if needle in b'-0123456789':
+                return None
+        elif s[0] == 'packed':
+            return None
+        else:
+            return None         # arbitrary bytes may contain the needle: not decidable structurally
+        k, off = k + 1, 0
+    return VInt(-1)
